@@ -79,6 +79,28 @@ pub fn gen(prop: &str, scen: &str, _k: u64, seed: u64, tier: &str) -> Case {
                 case.src_policy = IoPolicy::default();
             }
         }
+        "oob.direct_bits" => {
+            // the direct-bit reader (hand-written assembly on x86_64/aarch64) at the last bytes
+            // of a chunk buffer that ends at an inaccessible page
+            case.set("buf_len", *r_in.pick(&[65531i64, 65531, 4096, 4097, 8191, 20000]));
+            case.set("fill_seed", (r_in.next_u64() >> 1) as i64);
+        }
+        "oob.chunkend" => {
+            // a valid LZMA2 stream rich in far matches; then the compressed size of one chunk is
+            // lowered step by step, so that the chunk buffer ends inside a symbol - sooner or
+            // later inside the direct bits of a match distance
+            let len = r_in.urange(20_000, if big { 120_000 } else { 50_000 });
+            optgen::random_format(&mut r_opt, &mut case, &["lzma2"], len);
+            case.opt.dict = *r_opt.pick(&[16384u32, 32768, 65536, 1 << 20]);
+            case.opt.preset = None;
+            case.opt.unit = None;
+            case.input = InputSpec::new(*r_in.pick(&["copies", "far_repeat", "mixed"]), len, r_in.next_u64());
+            case.input.p1 = *r_in.pick(&[3u64, 8, 40]);
+            case.input.p2 = *r_in.pick(&[200u64, 3000, 9000, 14000]);
+            case.set("points", if big { 400 } else { 96 });
+            case.set("pick_seed", (r_f.next_u64() >> 1) as i64);
+            case.set("only", -1);
+        }
         _ => {
             // oob.decode: damage inside compressed payloads, no integrity check in the way
             let len = r_in.urange(1, if big { 200_000 } else { 40_000 });
@@ -131,7 +153,12 @@ pub fn exec(case: &Case, keep_log: bool) -> RunResult {
     let data = spec.gen();
     ctx.ev("input_len", data.len() as u64);
     let g0 = simcore::alloc::guarded_allocations();
-    let v = if case.scen != "oob.decode" { encode(case, &data, &mut ctx) } else { decode_hostile(case, &data, &mut ctx) };
+    let v = match case.scen.as_str() {
+        "oob.direct_bits" => direct_bits(case, &mut ctx),
+        "oob.chunkend" => chunk_end(case, &data, &mut ctx),
+        "oob.decode" => decode_hostile(case, &data, &mut ctx),
+        _ => encode(case, &data, &mut ctx),
+    };
     simcore::alloc::set_guard(false);
     ctx.metric("guarded_allocations", simcore::alloc::guarded_allocations() - g0);
     let shadow = lz::verif::take_shadow_failures();
@@ -140,10 +167,9 @@ pub fn exec(case: &Case, keep_log: bool) -> RunResult {
     ctx.finish(v)
 }
 
-/// Guard pages cost a mapping per large allocation, so only a part of the runs uses them: all
-/// runs that fill the window buffer exactly, and an eighth of the others.
-fn use_guard(case: &Case) -> bool {
-    case.knob("len_is_window") != 0 || case.seed % 8 == 0
+/// Guard pages: every run (the allocator recycles the mappings, so they cost little).
+fn use_guard(_case: &Case) -> bool {
+    true
 }
 
 fn only_oob(v: Violation) -> Option<Violation> {
@@ -241,4 +267,90 @@ fn decode_hostile(case: &Case, data: &[u8], ctx: &mut Ctx) -> Option<Violation> 
         return None;
     }
     universal_decode_violation(case, &d).and_then(only_oob)
+}
+
+/// The direct-bit reader over a buffer whose end abuts a guard page: every position in the last
+/// seven bytes x every bit count x ranges with and without a pending normalisation. A load
+/// behind the buffer - also one made by the inline assembly, which no sanitizer instruments -
+/// faults and kills the worker (reported as an abort of this case).
+fn direct_bits(case: &Case, ctx: &mut Ctx) -> Option<Violation> {
+    let len = case.knob_or("buf_len", 65531).max(16) as usize;
+    let mut rng = Rng::new(case.knob("fill_seed") as u64);
+    let mut buf = vec![0u8; len];
+    rng.fill(&mut buf);
+    if rng.pct(30) {
+        let l = buf.len();
+        buf[l - 8..].iter_mut().for_each(|b| *b = 0);
+    }
+    ctx.nontrivial = true;
+    let mut digest = 0u64;
+    for tail in 0..=6usize {
+        for count in 1..=26u32 {
+            let range: u32 = if rng.pct(45) { rng.range(1 << 18, (1 << 24) - 1) as u32 } else { rng.range(1 << 24, u32::MAX as u64) as u32 };
+            let code = rng.below(range as u64) as u32;
+            simcore::alloc::set_guard(true);
+            let r = simcore::run::guarded(|| lz::verif::direct_bits_buffer(range, code, &buf, len - tail, count));
+            simcore::alloc::set_guard(false);
+            ctx.evals += 1;
+            match r {
+                Ok((res, r2, c2, p2)) => digest = simcore::rng::mix(digest, simcore::rng::mix(res as u32 as u64, simcore::rng::mix(r2 as u64, simcore::rng::mix(c2 as u64, p2 as u64)))),
+                Err((loc, msg)) => {
+                    return only_oob(simcore::run::classify_panic("RangeDecoder", &loc, &msg));
+                }
+            }
+        }
+    }
+    ctx.ev("digest", digest);
+    ctx.distinct_sub = 7 * 26;
+    None
+}
+
+/// Lowers the compressed size of one LZMA chunk of a valid LZMA2 stream to many values and
+/// decodes each variant with the chunk buffer in front of a guard page.
+fn chunk_end(case: &Case, data: &[u8], ctx: &mut Ctx) -> Option<Violation> {
+    let stream = prepare_stream(case, data).ok()?;
+    let (chunks, _) = simcore::parsers::lzma2_chunks(&stream).ok()?;
+    let cands: Vec<&simcore::parsers::Lzma2Chunk> = chunks.iter().filter(|c| c.is_lzma() && c.packed >= 64).collect();
+    if cands.is_empty() {
+        ctx.metric("skipped_no_lzma_chunk", 1);
+        return None;
+    }
+    let mut rng = Rng::new(case.knob("pick_seed") as u64);
+    let ch = cands[rng.urange(0, cands.len() - 1)];
+    let only = case.knob_or("only", -1);
+    let n_points = case.knob_or("points", 96) as usize;
+    let mut points: Vec<usize> = Vec::new();
+    if only >= 0 {
+        points.push(only as usize);
+    } else {
+        // mostly the tail of the chunk (all probabilities adapted), some anywhere
+        for _ in 0..n_points {
+            let lo = if rng.pct(80) { ch.packed.saturating_sub(3000).max(1) } else { 1 };
+            points.push(rng.urange(lo, ch.packed - 1));
+        }
+        points.sort();
+        points.dedup();
+    }
+    ctx.nontrivial = true;
+    let payload = ch.start + ch.header_len;
+    let mut distinct = std::collections::HashSet::new();
+    for &n in &points {
+        ctx.evals += 1;
+        let mut s = stream[..payload + n].to_vec();
+        // compressed size - 1, big endian, at offset 3 of an LZMA chunk header
+        s[ch.start + 3] = (((n - 1) >> 8) & 0xFF) as u8;
+        s[ch.start + 4] = ((n - 1) & 0xFF) as u8;
+        s.push(0);
+        let mut gc = case.clone();
+        gc.set("len_is_window", 1); // use_guard(): always
+        let d = guarded_decode(&gc, s, data.len(), data.len() + (1 << 20));
+        distinct.insert(simcore::rng::mix(n as u64, simcore::rng::mix(d.end.tag(), d.out.len() as u64)));
+        if let Some(v) = universal_decode_violation(case, &d).and_then(only_oob) {
+            ctx.pin.insert("only".into(), n as i64);
+            return Some(v);
+        }
+    }
+    ctx.distinct_sub = distinct.len() as u64;
+    ctx.ev("points", points.len() as u64);
+    None
 }
